@@ -51,6 +51,51 @@ func AlignOf(code int) interface{} {
 	return nil
 }
 
+// Col values that name an owner which is no column: the table itself, its last row, the first cell of its last cell row.
+const (
+	OwnerTable = 100 + iota
+	OwnerRow
+	OwnerCell
+)
+
+func elsewhere(t tabular.Table, op PropOp) {
+	var h tabular.PropertyOwner
+	rows := t.AllRows()
+	switch op.Col {
+	case OwnerTable:
+		h = t
+	case OwnerRow:
+		if len(rows) > 0 {
+			h = rows[len(rows)-1]
+		}
+	default:
+		for i := len(rows) - 1; i >= 0 && h == nil; i-- {
+			if cells := rows[i].Cells(); len(cells) > 0 {
+				h = &cells[0]
+			}
+		}
+	}
+	if h == nil {
+		return
+	}
+	switch op.Key {
+	case "align":
+		h.SetProperty(align.PropertyType, AlignOf(((op.Val%4)+4)%4))
+	case "skip":
+		if op.Val == 0 {
+			h.SetProperty(properties.Skipable, nil)
+		} else {
+			h.SetProperty(properties.Skipable, op.Val%2 != 0)
+		}
+	default:
+		if op.Val == 0 {
+			h.SetProperty(userKey(op.Key), nil)
+		} else {
+			h.SetProperty(userKey(op.Key), op.Val)
+		}
+	}
+}
+
 type nopOwner struct{}
 
 func (nopOwner) SetProperty(interface{}, interface{}) error { return nil }
@@ -60,6 +105,13 @@ func (nopOwner) GetProperty(interface{}) interface{}        { return nil }
 // alignment and skipable codes (both indexed by column number, 0 = unset; skip 1 true, 2 false).  A nil table folds only.
 func ApplyProps(t tabular.Table, ops []PropOp, n int, alignCodes, skipCodes []int) {
 	for _, op := range ops {
+		if op.Col >= OwnerTable {
+			// the same keys on an owner that is not a column: the columns do not care
+			if t != nil {
+				elsewhere(t, op)
+			}
+			continue
+		}
 		col := ((op.Col % (n + 1)) + n + 1) % (n + 1)
 		var h tabular.PropertyOwner = nopOwner{}
 		if t != nil {
@@ -100,6 +152,9 @@ func PropHistDepth(ops []PropOp, n int) int {
 	live := map[int]map[string]bool{}
 	best := 0
 	for _, op := range ops {
+		if op.Col >= OwnerTable {
+			continue
+		}
 		col := ((op.Col % (n + 1)) + n + 1) % (n + 1)
 		if live[col] == nil {
 			live[col] = map[string]bool{}
@@ -124,7 +179,7 @@ func PropHistGen(maxOps int) *rapid.Generator[[]PropOp] {
 		n := rapid.IntRange(1, maxOps).Draw(t, "nprops")
 		out := make([]PropOp, n)
 		for i := range out {
-			out[i] = PropOp{Col: rapid.IntRange(0, 2).Draw(t, "col"), Key: rapid.SampledFrom(keys).Draw(t, "key"), Val: rapid.IntRange(0, 3).Draw(t, "val")}
+			out[i] = PropOp{Col: rapid.SampledFrom([]int{0, 0, 1, 1, 2, 2, 0, 1, 2, OwnerTable, OwnerRow, OwnerCell}).Draw(t, "col"), Key: rapid.SampledFrom(keys).Draw(t, "key"), Val: rapid.IntRange(0, 3).Draw(t, "val")}
 		}
 		return out
 	})
